@@ -18,7 +18,7 @@ RULE = ("cases from rng(seed, 12, 0, i): graphs of all pose types (trajectory an
         "one call vs single-iteration driving; random (all for n<=5) compositions k1+..+km=n. distinct = fingerprint(spec, tol, max_iter); non-trivial = run with >= 2 iterations."
         " later additions: the rule replayed exactly on the run's own reported sequence; negative chi2 (indefinite information); durations; third printed column; between-call edits that touch only edge-side data, release a fixed vertex.")
 REQ = ["eval:stopping-rule", "eval:report-chi2-sequence", "eval:final-state-is-trajectory-state", "eval:final-chi2-is-calc_chi2", "eval:verbose-does-not-alter", "eval:split-run-reproduces",
-       "eval:printed-table-matches-report", "eval:str(result)-matches-report", "class:early_stop", "class:max_iter_stop", "class:stationary", "class:diverging", "class:tol=0", "class:converged_at_max_iter", "class:singular", "class:nan_chi2_in_trace", "class:edge_overriding_calc_chi2", "eval:next-call-after-external-edit-equals-fresh-graph", "class:indefinite_information(negative chi2 possible)", "class:fixed_vertex_released_between_calls", "class:landmark_offset_written_in_place_between_calls"]
+       "eval:printed-table-matches-report", "eval:str(result)-matches-report", "class:early_stop", "class:max_iter_stop", "class:stationary", "class:diverging", "class:tol=0", "class:converged_at_max_iter", "class:singular", "class:nan_chi2_in_trace", "class:edge_overriding_calc_chi2", "eval:next-call-after-external-edit-equals-fresh-graph", "class:indefinite_information(negative chi2 possible)", "class:fixed_vertex_released_between_calls", "class:landmark_offset_written_in_place_between_calls", "class:call_with_default_arguments"]
 PLAN = {
     "quick": {"cases": 1200, "soft_s": 80, "min_nontrivial": 300, "require": REQ},
     "thorough": {"cases": 48000, "soft_s": 1400, "min_nontrivial": 10000, "require": REQ},
@@ -411,6 +411,20 @@ def run_case(ctx, i, rng):
     tol = float(rng.choice([0.0, 1e-12, 1e-9, 1e-6, 1e-4, 1e-3, 1e-2, 1e-1, float(10 ** rng.uniform(-12, -1))]))
     max_iter = int(rng.integers(1, 13 if ctx.tier == "quick" else 31))
     ffp = bool(rng.random() < 0.7)
+    if i % 6 == 0:
+        # the documented defaults (tol = 1e-4, max_iter = 20, fix_first_pose = True): a call that names none of them behaves as if they had been passed
+        gd = M.build(spec)
+        first_fixed_before = bool(gd._vertices[0].fixed)
+        try:
+            res_d = M.quiet_optimize(gd)
+            why_d = own_sequence_consistent(res_d, 1e-4, 20)
+            if why_d is None and not bool(gd._vertices[0].fixed):
+                why_d = "fix_first_pose defaults to True, but the first vertex is not fixed after the call"
+            ctx.check("stopping-rule", why_d is None, {"graph_kind": gkind, "basis": "documented default arguments"},
+                      {"why": why_d, "num_iterations": res_d.num_iterations, "converged": bool(res_d.converged), "first_vertex_fixed_before": first_fixed_before}, {"graph": {k: v for k, v in spec.items() if k not in ("truth", "truth_by_id")}})
+            ctx.count("class:call_with_default_arguments")
+        except Exception as ex:  # noqa: BLE001
+            ctx.count("default_argument_call_raised:" + type(ex).__name__)
     out = report_check(ctx, rng, spec, gkind, tol, max_iter, ffp)
     if out is None:
         return
